@@ -40,7 +40,7 @@ one was found and `no-failing-input-found` otherwise (§2.4).
 | C07 | `Preproc`; 21 | step-by-step exact-rational correspondence | ≈ 20 s |
 | C08 | `Poc`; 17 | exact-rational correspondence + recorded optimiser inputs | ≈ 60 s |
 | C12 | `Hash`; 16 | byte-exact pre-image correspondence | ≈ 11 s |
-| C13 C18 | `Residual` wrapper + regenerated model functions (`Props/C13`, `Props/C13Shape`), `Registry`, generated attribute tables; 31 + 12 | regeneration; harness models (order-sensitive, retained results); mutant modules, call sequences | 3–4 s |
+| C13 C18 | `Residual` wrapper + regenerated model functions (`Props/C13`, `Props/C13Shape`), regenerated default weighting distances and parameter limits (`Props/C13Defaults`), `Registry`, generated attribute tables; 39 + 12 | regeneration; harness models (order-sensitive, retained results); mutant modules, call sequences | 3–4 s |
 | C14 | `Order` + generated requirement table; 14 (`decide +kernel` over all selections) | exhaustive correspondence | ≈ 6 s |
 | C15 | `TrainingSet`; 9 | real training-set directories at exact rationals | ≈ 5 s |
 | C16 | `Container`; 11 | h5 dumps + fault injection at every write | ≈ 55 s |
@@ -54,7 +54,8 @@ Each line is the entry of `known_findings.json` (`fixed`), which names the commi
 input / history.  A fixed entry suppresses nothing: the check passes on the repaired tree and
 reports the violation again if it returns (verified for the fixes of this round by reverse-applying
 the commit and running the check: C07 dd322c8, C08 269f194 and 13aa2c2 are reported with a
-concrete replay; C14 cbd93cb and C16 280e6bf likewise).
+concrete replay; C14 cbd93cb, C16 280e6bf and C06 1e22c1e likewise – the last was reported by `./check C06` on the
+tree before the repair with the history as replay).
 
 ''' + "\n".join("* " + f[len("fixed: "):] for f in fixed) + r'''
 
@@ -82,6 +83,16 @@ corrected with `gcf_k` turned out to violate C04 and C11 once the generator cove
   recorded optimiser inputs agree to 1e-12 *and* the start index is identical – any other
   non-invariance of the same estimator is still a VIOLATION.  The recorded input runs first in
   every run.
+* **C13 `at-declared-bound:…`** – three shipped models fail on a *closed* declared limit of one of their
+  parameters: `power_layer_clifford_2009` with `E_S = 0` raises ZeroDivisionError (`(E_L/E_S)**m`),
+  `sneddon_spher_approx` with `R = 0` returns NaN for every point in contact, `sneddon_spher` with `R = 0` raises
+  ZeroDivisionError.  The property quantifies over “parameters in bounds”, and lmfit's bounds are closed.  Found
+  when the contract oracle of `./check C13` was extended to the declared limits (for seed C13j, which moves the
+  layer-thickness limit onto such a point).  Not repaired: the degenerate limit (a tip of zero radius, a substrate
+  of zero stiffness) is never the result of fitting a real curve; the repair would be an open lower limit as the
+  code already uses for the layer thickness (`min=1e-12`), which changes the declared defaults of shipped models and
+  with them the hash of every fit – a decision for the maintainers.  Each finding is keyed by model, parameter and
+  value: any other parameter on a limit (e.g. the seeded `t = 0`) is a VIOLATION.
 * **C17 `order-all-with-names`** – `compute_features(which_type="all", names=<list>)` keeps the order
   of the list (documented in the code); every other form returns sorted names.  Proved as the
   second disjunct of `c17_compute_order`.
@@ -128,12 +139,21 @@ corrected with `gcf_k` turned out to violate C04 and C11 once the generator cove
   with 2–4 samples are outside “well-formed”; lag restricted to ≤ 5 % of the approach.
 * C17: an exactly constant or non-positive force is outside the property (division by the maximal
   force); the model returns `none` for a zero denominator (`divO`) instead of Lean's `x/0 = 0`.
+* C07 (ninth round): the tie of the slope correction compared lmfit's fitted slope with the closed-form slope to a
+  relative 1e-6; for an integer-valued curve with a force offset of −2·10⁵ and a slope of 0.19 the iterative fit is
+  only that precise *relative to the data*, not to the slope (difference 7·10⁻⁶ of the slope, 4·10⁻⁵ of a force of
+  2·10⁵).  The comparison now also accepts a line that agrees with the closed form to 1e-7 of the force magnitude
+  over the fitted baseline; the step's output given the fitted line is still compared to 1e-9.
+* C17 (ninth round, clean-tree seed 121): a “drop-at-end” stub dataset whose only positive force samples were the
+  two that the generator zeroes has a maximal force of zero; the features that divide by it are infinite.  A force
+  that never exceeds zero was already outside the property for the value clauses; the `not-finite` test of the model
+  tie now has the same guard.
 * C20: the workshop csv file has no spring constant – its refusal by groups is the specified
   behaviour, not a load failure.
 
 ### 9.5 Seeded changes (independent sub-agents, property text + scratch worktree only)
 
-One hundred and ninety-six changes are kept under `seeded/<id>/` (`patch.diff`, `demo.py`, `meta.json`; each
+Two hundred and twenty-four changes are kept under `seeded/<id>/` (`patch.diff`, `demo.py`, `meta.json`; each
 confirmed by me in a scratch worktree: demo passes on HEAD, fails with the change, 176 tests pass with it): forty
 from the first round (two per property), ten from a second round of eight agents, seventeen from a third round
 of twelve agents, thirty-one from a fourth round of twenty agents that were asked to avoid the most obvious
@@ -148,8 +168,9 @@ everything tried so far and asked for changes of another kind (formula details t
 parameters only, the second / third segment, options that are accepted but ignored, interactions of two settings,
 metadata and folder handling, saturated or incomplete data, documented return conventions), and twenty-four from
 an eighth round of twenty agents that were pointed at public functions hardly touched so far and at pairs of
-functions that must agree with each other; eighty-two further submissions duplicated earlier changes and were not
-kept.  C04c, C11a, C11b and C11c were re-expressed on the tree in which the contact-point limits are corrected
+functions that must agree with each other, and twenty-eight from a ninth round of twenty agents that were asked to
+run the test suite under a line / branch tracer and to change code the suite never executes; ninety-four further
+submissions duplicated earlier changes and were not kept.  C04c, C11a, C11b and C11c were re-expressed on the tree in which the contact-point limits are corrected
 with `gcf_k`, C10g on the tree in which `compute_poc` converts its input to floating point, C16g and C16i on the
 tree in which rating containers store `range_x` as plain floats, and re-confirmed.
 Two earlier seeds were retired: C08f (in-place normalisation that failed for integer arrays) is harmless since
@@ -158,8 +179,9 @@ broke the property because `available()` handed out its cached list; after the r
 harmless (its demonstration passes).  Neither is counted any more.
 `tools/run_seeds.py` applies each to `/repo`, runs the quick check of its property, undoes it and
 writes `seeded/RESULTS.json`.  All of them are reported by `./check <property> --tier quick`; all but one with a
-concrete failing input (the share of first-missed seeds per round was 8/17, 15/31, 14/26, 13/28, 10/22 and 5/24 in
-rounds three to eight).  The exception is C08j (`poc_deviation_from_baseline` tests `|force − baseline|` instead of
+concrete failing input (the share of first-missed seeds per round was 8/17, 15/31, 14/26, 13/28, 10/22, 5/24 and 12/28 in
+rounds three to nine – the last of them 12/28: code the test suite never executes is also code the checks had
+not reached yet).  The exception is C08j (`poc_deviation_from_baseline` tests `|force − baseline|` instead of
 the signed deviation): it keeps every returned index valid and invariant and leaves clean model curves untouched –
 what it changes is the estimate on curves with a descending baseline, for which the property states no accuracy –
 so no input violates the statement; the correspondence with the Lean model of the estimator breaks and the check
@@ -279,6 +301,28 @@ Checks that had to be strengthened because a seed was first missed or reported o
   rating settings – which also restored the detection of C20f that the sixth-round change of the map generator had
   lost for the default seed; found by re-running all seeds).
 
+* ninth round (12 of 28 were first missed, 2 more had no failing input; the agents worked from a coverage run of
+  the test suite): C01 (the whole-segment interval spelled out, written (high, low), and relative to the contact
+  point – C01j), C06 (every request repeated with `ret_details=True`: accepted iff accepted without, data columns
+  unchanged; degenerate recordings on which the estimators find nothing; option values that cannot be compared with
+  the stored ones – C06m and the repaired defect 1e22c1e), C07 (the tip-sample separation asked for a second time
+  after the force was corrected, in the pipeline and by calling the step functions on a processed curve – C07l), C08
+  (recordings of 6500–12000 samples; for the quadratic models, which the polynomial fits represent exactly, the
+  stated fraction is 1 % plus one sample instead of 35 % – C08l took the centre fallback within the old bound), C09
+  (user directories holding NaN, +inf and −inf in one sample, and a user directory that carries the name of the
+  shipped set, against a reference that reads and cleans the files itself – C09i/j), C10 (the details returned for a
+  caller-held option dictionary edited between calls – C10l), C11 (the factor requested through each documented
+  route on a curve fitted before with another factor, including `IndentationFitter(idnt, gcf_k=k)` – C11l), C12
+  (limits of a *constrained* parameter – C12j), C13 (residual without a weighting distance against the weights
+  function's own default; every parameter on each declared limit – C13i/j, and the three recorded findings), C16
+  (interval bounds computed from the data, seventeen significant digits – C16l), C17 (a twin dataset whose retract
+  reaches beyond both ends of the approach – C17k), C19 (writes the profile cannot serialise, in between: rejected
+  and nothing stored before is lost – C19o).  A side remark of one agent (an option value that cannot be compared
+  leaves a half-stored request behind) was reproduced with `./check C06`, repaired (1e22c1e) and is covered by the
+  incomparable requests of the pair oracle; another (the plateau search ignores a changed lower interval bound even
+  when it exceeds the upper one) leaves stored settings and results consistent with each other and is listed
+  under the observations.
+
 ### 9.6 Observations that are not findings
 
 `optimal_fit_num_samples ≤ 6` makes scipy's `filtfilt` raise; `preproc.apply(options=None)` raises
@@ -286,7 +330,8 @@ AttributeError (the public entry point passes a dict); `least_squares`/`powell` 
 parameters are outside the object model; afmformats' HDF5 reader iterates curve groups in
 lexicographic key order (third party); the plateau search (`optimal_fit_edelta`) raises FitDataError for every
 retract segment (`compute_emodulus_vs_mindelta` ends in an unconditional raise there) and, with an upper bound
-equal to the default's, replaces the user's `range_x` by the default list (modelled as `fitterFp`); a map pixel without a curve is NaN without a warning.
+equal to the default's, replaces the user's `range_x` by the default list (modelled as `fitterFp`); a map pixel without a curve is NaN without a warning; with the plateau search on, `range_x = [a, b] → [c, b]` is ignored even for `c > b`, where
+`max(range_x)` would have become `c` – the stored interval stays `[a, b]`, and results and hash belong to the stored one (C03 holds; modelled by the `sameHi` branch of `setitem`).
 
 ### 9.7 Deviations from the design
 
